@@ -233,17 +233,44 @@ def _shard(arg):
     return res
 
 
+def _long_job(arg):
+    """One long trajectory (more than 5000 frames, not a round number): frame-wise processing in blocks must not lose the tail."""
+    seed, K = arg
+    from vlib.core import SEED
+    rng = np.random.default_rng([SEED, 11, seed])
+    q = rng.standard_normal((K, 4))
+    u = rng.standard_normal((K, 3))
+    case = {"grid": {"b": "cube4D_8", "o": "ico_7", "t": "[0.2, 0.3, 0.45]"},
+            "m1": {"elements": ["O"], "coords": [[0.1, -0.2, 0.3]], "fmt": "xyz"},
+            "m2": {"elements": ["C", "N", "O", "H", "S"], "coords": [[0.0, 0.0, 0.0], [1.4, 0.1, 0.0], [-0.5, 1.2, 0.3], [0.2, -0.4, 1.1], [-1.1, -0.9, -0.6]],
+                   "fmt": "xyz", "kind": "generic"},
+            "placements": {"quats": np.round(q, 6).tolist(), "dirs": np.round(u, 6).tolist(), "rfrac": np.round(rng.uniform(0.05, 1.0, K), 6).tolist()},
+            "include_outliers": bool(seed % 2), "cartesian_grid": True}
+    res = Result()
+    msgs, info = judge(case)
+    res.extra["placements_judged"] = info["judged"]
+    res.extra["placements_excluded_near_boundary"] = info["excluded"]
+    small = dict(case, placements={"n_frames": K, "seed": [SEED, 11, seed]})
+    res.case(sample=small, nontrivial=True, key=small, classes=["long_trajectory(>5000 frames)", "placements=continuous"])
+    if msgs:
+        res.violation(case, "; ".join(msgs))
+    return res
+
+
 def replay(case):
     return judge(case)[0]
 
 
 def run(tier):
     total, max_frames = (192, 20) if tier == "quick" else (3200, 40)
-    res = merge_results(pmap(_shard, [(s, total // 16, max_frames) for s in range(16)]))
+    jobs = [(s, total // 16, max_frames) for s in range(16)]
+    results = pmap(_long_job, [(0, 5347)] if tier == "quick" else [(0, 5347), (1, 10001), (2, 7919)])
+    results += pmap(_shard, jobs)
+    res = merge_results(results)
     rule = (f"Hypothesis: grid from 8 rotation grids x 9 direction grids x 7 radial grids (n_t>=2, outer boundary 0.35 .. 7.75 nm), one case in ten with 255..300 rotations (product array built from the package's random-quaternion set); molecule 2 with 3..9 atoms, three "
             f"distinct principal moments (relative gaps >= 5 %), planar or generic, atoms in random order, off-centre, .xyz or .gro; "
             f"1..{max_frames} placements with rotation from a normalised integer quaternion, direction from a normalised integer "
-            f"vector, radius in (0.02, 1.3] x outer boundary, or the grid's own pseudotrajectory (one case in four); both settings of "
+            f"vector, radius in (0.02, 1.3] x outer boundary, or the grid's own pseudotrajectory (one case in four); plus one trajectory of 5347 frames (thorough: also 7919 and 10001); both settings of "
             f"include_outliers and of the direction metric. Non-trivial = continuous placements with at least one judged frame; "
             f"distinct = distinct input. Placements within 1e-3 (A / rad) of a cell boundary are excluded (counted).")
     return res, rule, {"assumptions": ["placements are produced with the package's Pseudotrajectory from arbitrary rows (its correctness is C10)",
